@@ -72,7 +72,7 @@ func init() {
 		checkProtoVersion dialer getGRPCMuxer loadServerCert logStderr reattach
 		getClientStream getServerStream knock listenForKnocks timeoutWait
 		acceptSession session getStream done closeBroker trackListener killed
-		newMuxBroker hostEnviron knockExpiry copyChanStream pidWait newGRPCBrokerServer newGRPCBrokerClient newBlockedServerListener flattenKVPairs flattenKVPairs
+		newMuxBroker hostEnviron knockExpiry unblock copyChanStream pidWait newGRPCBrokerServer newGRPCBrokerClient newBlockedServerListener flattenKVPairs flattenKVPairs
 	`) {
 		normAnchors[n] = true
 	}
